@@ -769,6 +769,26 @@ def registry(ctx):
         res.fail(ctx.finding('DIST-REGISTRY', f, f.node,
                              'unknown distribution names are accepted',
                              construct='dist unknown'))
+    from ..match import find
+    mfp = P.classes['FieldGroup'].props.get('max_field')
+    if mfp is None:
+        raise AnalysisError('FieldGroup.max_field not found')
+    res.saw(mfp)
+    if find(mfp, 'np.max(np.sqrt(self.x_fields ** 2 + self.y_fields ** 2))'):
+        res.ok('max_field = max sqrt(x^2 + y^2) over the fields')
+    else:
+        res.fail(ctx.finding('VIG-INTERP', mfp, mfp.node,
+                             'the maximum field (unit of the normalised field '
+                             'coordinates) is not the largest radial field',
+                             construct='max_field'))
+    for nm, ax in (('x_fields', 'x'), ('y_fields', 'y')):
+        pr = P.classes['FieldGroup'].props.get(nm)
+        if pr is not None and find(pr, f'np.array([$f.{ax} for $f in self.fields])'):
+            res.ok(f'{nm}: {ax} of every field')
+        else:
+            res.fail(ctx.finding('VIG-INTERP', pr or mfp, None,
+                                 f'{nm} is not the list of field {ax} values',
+                                 construct=nm))
     g = P.func('FieldGroup.get_vig_factor')
     res.saw(g)
     s = Code(P, g)
